@@ -10,9 +10,12 @@ CFG = dict(
          "log it writes; non-trivial = at least one upkeep. expected: 12 boundary plans + VERIF_N random plans through the real generators and "
          "NewOCR3TransmitLoader with a recording progress sink; non-trivial = expected count > 0. verdict: 14 boundary + VERIF_N/2 random "
          "increment schedules on the real ProgressTelemetry (go-pretty renderer running) inside synctest bubbles, incl. registration later than "
-         "the first progress tick; non-trivial = at least one increment. plan: 9 boundary + VERIF_N random plans through Encode/Decode, wire "
-         "events inspected. direct.json: three real reduced 4-node simulations (cmd/simulator built with -race; genesis 99980 so that block "
-         "numbers change length mid-run): performs expected and reached, performs expected but impossible (no OCR config), none expected; "
+         "the first progress tick; non-trivial = at least one increment. wired: 10 boundary + VERIF_N/2 random runs of the real "
+         "NewOCR3TransmitLoader registered with the real ProgressTelemetry (reports transmitted, loaded into blocks, Close, AllProgressComplete), "
+         "incl. plans expecting none on which upkeeps are performed anyway. plan: 9 boundary + VERIF_N random plans through Encode/Decode or run.SetupOutput/run.LoadSimulationPlan (saved file), durations that are not whole "
+         "milliseconds in every duration field, the whole plan compared structurally (not through the JSON codec), wire events inspected. "
+         "report cases run the end-of-run sequence of Group.Start (WriteTransmitChart, then ReportResults) on a Group assembled as in main.go. direct.json: four real reduced 4-node simulations (cmd/simulator built with -race; genesis 99980 so that block "
+         "numbers change length mid-run): performs expected and reached, performs expected but impossible (no OCR config), none expected and none performed, none expected but performed (must exit 1); "
          "thorough adds the three shipped plans. distinct = structural hash of the generator-form input",
     trusted=["verif-tag exports node.VerifFindMedianAndSplitData/... and Group.VerifTransmitter",
              "log-line parsing of the simulator's own summary, transmit table and per-node contract.log",
@@ -29,6 +32,6 @@ CFG = dict(
              "SimulationPlan.Encode/DecodeSimulationPlan at event-list level; exercised but not modelled: libocr, the plug-in, the simulated "
              "network/RPC, telemetry collectors, cmd/simulator/main.go wiring",
     partial="termination, exit status vs. performs in simulation.log, >= f+1 distinct checking nodes per transmitted upkeep, no empty report, "
-            "saved plan loads back, no crash and no data race in repository code are observations on real runs (three reduced plans per quick "
+            "saved plan loads back, no crash and no data race in repository code are observations on real runs (four reduced plans per quick "
             "run), reported through direct.json; races inside go-pretty (Tracker.timeStart) are third-party and only counted",
 )
